@@ -1,6 +1,6 @@
 (* C14 - diagnostics point at the offending construct in the user's own file.
    Property theorems only; proofs live in RegionProofs.v. *)
-From HclV Require SpanParserSpec SpanParserProofs DiagSpec DiagProofs SpanBuildSpec SpanBuildProofs ParseDiagSpec ParseDiagProofs FullDiagSpec FullDiagProofs Generated Build.
+From HclV Require SpanParserSpec SpanParserProofs DiagSpec DiagProofs SpanBuildSpec SpanBuildProofs ParseDiagSpec ParseDiagProofs FullDiagSpec FullDiagProofs ParseLocSpec ParseLocProofs Generated Build.
 From HclV Require Import Base Yo Region RegionSpec RegionProofs RegionMultiSpec RegionMultiProofs.
 From HclV Require LexLocSpec LexLocProofs.
 Open Scope list_scope.
@@ -393,3 +393,40 @@ Theorem C14_standard_error_regions_are_in_the_user_file :
   FullDiagSpec.stmt_front_stderr_in_user_file /\ FullDiagSpec.stmt_front_stderr_shape.
 Proof. split; [exact FullDiagProofs.front_stderr_in_user_file_holds | exact FullDiagProofs.front_stderr_shape_holds]. Qed.
 Print Assumptions C14_standard_error_regions_are_in_the_user_file.
+
+(* ---- where a SYNTAX error is located (ParseLoc*.v): the generated LR parser complains about the
+   first token that cannot continue any sentence of the grammar (its valid-prefix property; compared
+   with the real parser on every run), or about the end of the input ------------------------------ *)
+(* first_error_index is None exactly for sentences of the grammar (diagnostic productions included);
+   otherwise the tokens before it are a viable prefix - with an explicit completion when the error
+   is the end of input - and the prefix including it is not; the index is unique, depends on token
+   kinds only and on the text up to the offending token only *)
+Theorem C14_syntax_error_is_the_first_token_that_cannot_continue :
+  ParseLocSpec.stmt_first_error_none_iff_sentence /\ ParseLocSpec.stmt_first_error_sound /\
+  ParseLocSpec.stmt_completion_sound /\ ParseLocSpec.stmt_completion_complete /\
+  ParseLocSpec.stmt_first_error_total /\ ParseLocSpec.stmt_first_error_unique /\
+  ParseLocSpec.stmt_first_error_kinds_only /\ ParseLocSpec.stmt_first_error_prefix_only /\
+  ParseLocSpec.stmt_first_error_none_iff_parse_diag /\ ParseLocSpec.stmt_parse_diag_done_no_error.
+Proof.
+  split; [exact ParseLocProofs.first_error_none_iff_sentence_holds |].
+  split; [exact ParseLocProofs.first_error_sound_holds |].
+  split; [exact ParseLocProofs.completion_sound_holds |].
+  split; [exact ParseLocProofs.completion_complete_holds |].
+  split; [exact ParseLocProofs.first_error_total_holds |].
+  split; [exact ParseLocProofs.first_error_unique_holds |].
+  split; [exact ParseLocProofs.first_error_kinds_only_holds |].
+  split; [exact ParseLocProofs.first_error_prefix_only_holds |].
+  split; [exact ParseLocProofs.first_error_none_iff_parse_diag_holds | exact ParseLocProofs.parse_diag_done_no_error_holds].
+Qed.
+Print Assumptions C14_syntax_error_is_the_first_token_that_cannot_continue.
+(* the located span is exactly one token of the user's text (or the byte after its last token), and
+   the diagnostic is rendered in the user's file, on that token's line, with carets under exactly it *)
+Theorem C14_syntax_error_is_located_in_the_user_file :
+  ParseLocSpec.stmt_first_error_span_is_a_token /\ ParseLocSpec.stmt_first_error_span_in_text /\
+  ParseLocSpec.stmt_first_error_rendered /\ ParseLocSpec.stmt_first_error_rendered_gen.
+Proof.
+  split; [exact ParseLocProofs.first_error_span_is_a_token_holds |].
+  split; [exact ParseLocProofs.first_error_span_in_text_holds |].
+  split; [exact ParseLocProofs.first_error_rendered_holds | exact ParseLocProofs.first_error_rendered_gen_holds].
+Qed.
+Print Assumptions C14_syntax_error_is_located_in_the_user_file.
